@@ -537,7 +537,17 @@ func (p *c17Prog) render(b *strings.Builder, r int, ss []c17Stmt, held []int, lo
 		case "close":
 			fmt.Fprintf(b, " (channel-close *ch%d*)", s.Ch)
 		case "rangeall":
-			fmt.Fprintf(b, " (range (lambda (v) (vtrace 'rv %d %d v)) *ch%d*)", r, s.Ch, s.Ch)
+			// N = 0: the callback only records the item; 1: it also gives up the processor (other
+			// consumers of the channel run between two items); 2: worker of a pool, it passes the item
+			// on to channel Chs[0] (and blocks there while that channel is full)
+			extra := ""
+			if s.N >= 1 {
+				extra = " (vyield)"
+			}
+			if s.N == 2 {
+				extra += fmt.Sprintf(" (channel-push *ch%d* v)", s.Chs[0])
+			}
+			fmt.Fprintf(b, " (range (lambda (v) (vtrace 'rv %d %d v)%s) *ch%d*)", r, s.Ch, extra, s.Ch)
 		case "sel":
 			// one receive through select; clause order: channel clauses in Chs order with the
 			// time-channel clauses at the positions Tpos
@@ -1204,14 +1214,39 @@ func c17GenSelect(rng *lib.Rng, maxOps int) *c17Prog {
 // family chan, shape range-close: a producer closes its channel when done, consumers range over it
 func c17GenRangeClose(rng *lib.Rng, maxOps int) *c17Prog {
 	p := &c17Prog{Family: "chan", Shape: "range-close", NoModel: true}
+	if rng.Chance(35) {
+		return c17GenRangePool(rng, maxOps)
+	}
 	ng := 1 + rng.Intn(2)
 	for g := 0; g < ng; g++ {
 		p.Caps = append(p.Caps, c17PickCap(rng))
 		r := len(p.Routines)
 		p.Routines = append(p.Routines, []c17Stmt{c17Rep(1+rng.Intn(maxOps), c17Push(g, r*1000)), {Kind: "close", Ch: g}})
-		for c := 0; c < 1+rng.Intn(3); c++ {
-			p.Routines = append(p.Routines, []c17Stmt{{Kind: "rangeall", Ch: g}})
+		nc := 1 + rng.Intn(3+(2-ng)) // 1..4 consumers on a single channel, 1..3 each on two
+		mode := rng.Intn(2)          // all callbacks of a channel plain, or all yielding
+		for c := 0; c < nc; c++ {
+			p.Routines = append(p.Routines, []c17Stmt{{Kind: "rangeall", Ch: g, N: mode}})
 		}
+	}
+	return p
+}
+
+// family chan, shape range-pool (the worker pool of the documentation of range): a producer pushes
+// jobs and closes the channel, several workers range over it and pass every job on to a small
+// results channel, a collector receives exactly as many results as jobs were pushed.
+func c17GenRangePool(rng *lib.Rng, maxOps int) *c17Prog {
+	p := &c17Prog{Family: "chan", Shape: "range-pool", NoModel: true}
+	p.Caps = []int{c17PickCap(rng), []int{0, 1, 2, 3}[rng.Intn(4)]}
+	n := 1 + rng.Intn(maxOps)
+	p.Routines = append(p.Routines, []c17Stmt{c17Rep(n, c17Push(0, 0)), {Kind: "close", Ch: 0}})
+	for w := 0; w < 1+rng.Intn(4); w++ {
+		p.Routines = append(p.Routines, []c17Stmt{{Kind: "rangeall", Ch: 0, N: 2, Chs: []int{1}}})
+	}
+	coll := []c17Stmt{c17Rep(n, c17Pop(1))}
+	if rng.Bool() {
+		p.Main = coll
+	} else {
+		p.Routines = append(p.Routines, coll)
 	}
 	return p
 }
@@ -1231,6 +1266,11 @@ func c17OddValues(rng *lib.Rng, p *c17Prog) {
 					consumers[s.Ch] = map[int]bool{}
 				}
 				consumers[s.Ch][t] = true
+				if s.Kind == "rangeall" && s.N == 2 {
+					// items are passed on to a second channel: numberless objects (identified by their
+					// position in a single consumer's sequence) stay out of such channels
+					consumers[s.Ch][-1] = true
+				}
 			case "sel":
 				for _, ch := range s.Chs {
 					if consumers[ch] == nil {
@@ -1697,6 +1737,15 @@ func c17CheckRun(c *lib.Ctx, cs *c17Case, run *c17Run, model map[string]string, 
 			}
 		})
 	}
+	// workers of a pool: (thread, channel it ranges over) -> channel it passes the items on to
+	fwd := map[[2]int]int{}
+	for t, ss := range threads {
+		for _, st := range c17Expand(ss) {
+			if st.Kind == "rangeall" && st.N == 2 && len(st.Chs) == 1 {
+				fwd[[2]int{t, st.Ch}] = st.Chs[0]
+			}
+		}
+	}
 	recv := make([]map[int][]string, nch) // channel -> consumer -> items "p.v"
 	for i := range recv {
 		recv[i] = map[int][]string{}
@@ -1727,6 +1776,16 @@ func c17CheckRun(c *lib.Ctx, cs *c17Case, run *c17Run, model map[string]string, 
 				default:
 					if prod, has := whoSent[[2]int{ch, int(num)}]; has && sentKind[[2]int{ch, int(num)}] == kind {
 						item = fmt.Sprintf("%d.%d", prod, num)
+						if to, isFwd := fwd[[2]int{int(e.A[0]), ch}]; isFwd && to < nch {
+							// the worker passes this very object on: from here on it is an item the
+							// worker sends on the results channel (recorded before the worker's push)
+							w := int(e.A[0])
+							if _, dup := whoSent[[2]int{to, int(num)}]; !dup {
+								sent[to][w] = append(sent[to][w], int(num))
+								whoSent[[2]int{to, int(num)}] = w
+								sentKind[[2]int{to, int(num)}] = kind
+							}
+						}
 						if ap, has := anonProd[ch]; has && ap == prod {
 							for j, si := range seqOf[[2]int{ch, ap}] {
 								if si.v == int(num) && j >= anonPtr[ch] {
@@ -2149,6 +2208,24 @@ func c17Cells() []*c17Case {
 		p.Routines = [][]c17Stmt{{c17Rep(150, c17Push(0, 0)), {Kind: "close", Ch: 0}}, {{Kind: "rangeall", Ch: 0}}, {{Kind: "rangeall", Ch: 0}}}
 		cells = append(cells, &c17Case{Prog: p, Cell: "range-close", Procs: []int{4}})
 	}
+	{
+		// several consumers ranging over one buffered channel that is closed by the producer; the
+		// callbacks give up the processor, so the consumers interleave item by item
+		p := &c17Prog{Family: "chan", Shape: "range-close", Caps: []int{8}, NoModel: true}
+		p.Routines = [][]c17Stmt{{c17Rep(200, c17Push(0, 0)), {Kind: "close", Ch: 0}}}
+		for w := 0; w < 4; w++ {
+			p.Routines = append(p.Routines, []c17Stmt{{Kind: "rangeall", Ch: 0, N: 1}})
+		}
+		cells = append(cells, &c17Case{Prog: p, Cell: "range-close-multi", Procs: []int{1, 2, 4, 16}})
+		// the worker pool: the callbacks block on a small results channel
+		q := &c17Prog{Family: "chan", Shape: "range-pool", Caps: []int{8, 2}, NoModel: true}
+		q.Routines = [][]c17Stmt{{c17Rep(200, c17Push(0, 0)), {Kind: "close", Ch: 0}}}
+		for w := 0; w < 4; w++ {
+			q.Routines = append(q.Routines, []c17Stmt{{Kind: "rangeall", Ch: 0, N: 2, Chs: []int{1}}})
+		}
+		q.Routines = append(q.Routines, []c17Stmt{c17Rep(200, c17Pop(1))})
+		cells = append(cells, &c17Case{Prog: q, Cell: "range-pool", Procs: []int{1, 4, 16}})
+	}
 	for _, cp := range []int{0, 1, 8} {
 		p := &c17Prog{Family: "chan", Shape: "fan", Caps: []int{cp}}
 		p.Routines = [][]c17Stmt{{c17Rep(150, c17Push(0, 0))}, {c17Rep(150, c17Push(0, 1000))}, {c17Rep(100, c17Pop(0))}, {c17Rep(200, c17Pop(0))}}
@@ -2481,14 +2558,23 @@ func runC17(c *lib.Ctx) {
 	if v, err := strconv.Atoi(os.Getenv("VERIF_C17_REPEAT")); err == nil && v > 1 {
 		repeat = v
 	}
+	// VERIF_C17_ONLY=<prefix> runs only the sweep cells whose name starts with the prefix and no
+	// composite programs (development aid; not used by the registered commands)
+	only := os.Getenv("VERIF_C17_ONLY")
 	for rep := 0; rep < repeat; rep++ {
 		for _, cs := range c17Cells() {
+			if only != "" && !strings.HasPrefix(cs.Cell, only) {
+				continue
+			}
 			for _, pr := range cs.Procs {
 				jobs = append(jobs, job{cs, pr, self, uint64(rep + 1)})
 			}
 		}
 	}
 	for _, cs := range c17Generate(c) {
+		if only != "" {
+			break
+		}
 		for _, pr := range cs.Procs {
 			jobs = append(jobs, job{cs, pr, self, c.Rng.U64()})
 		}
